@@ -356,6 +356,7 @@ VALUES = [
     {'src': "[vf.props.c02.Box([1], tag='x'), collections.OrderedDict([(1, 2)]), datetime.timedelta(days=-400, seconds=5)]"},
     {'src': "[sorted, dict, vf.stdvals.Shade.DARK, float('nan'), -1, frozenset([1]), vf.subcls.PlainInt(3)]"},
     {'src': "time.gmtime(0)"},
+    {'spec': ['c', 'line one\nline two and some more words so that it wraps when narrow', ['list', [LEAF('1'), LEAF('2')]]]},
     # comments whose last line is blank / whitespace only, annotated text ending in a blank
     {'spec': ['list', [['c', 'text\n    ', LEAF('1')], ['c', '  ', LEAF("'elem'")], ['tc', 'tail \n ', ['list', [LEAF('2')]]]]]},
 ]
